@@ -1707,12 +1707,38 @@ class TpPacketRun:
         return 'PCase %s %s %s' % (natlit(self.channels), zlist(self.init), coq_list(steps))
 
 
+def _ds(sp, t, fail=False, stop=False, pause=True, calon=None, wild=None):
+    return dict(sp=sp, calon=calon, t=t, wild=wild, fail=fail, stop=stop, pause=pause)
+
+
+# directed histories run first on every run (every branch of the packet code at least once, whatever the seed)
+TPP_DIRECTED = [
+    dict(channels=2, init=[65534, 2, 1, 1, 0], steps=[
+        _ds(250, 1700000000.5), _ds(250, 1700000001.5, pause=False), _ds(500, 1700000002.5, fail=True),
+        _ds(500, 1700000003.5, calon=1), _ds(0, 1700000004.5), _ds(1000, 2.0 ** 32 - 0.5),
+        _ds(100, 1700000005.0, stop=True), _ds(1001, 1700000006.0), _ds(-5, 1700000007.0),
+        _ds(200, 1700000008.0, wild='big'), _ds(200, 1700000009.0)]),
+    dict(channels=14, init=[65530, 0, 0, 0, 0], steps=[
+        _ds(100, 1699999999.999), _ds(100, 1700000001.0, calon=1, pause=False), _ds(1000, 1.0), _ds(1000, -2.0)]),
+    dict(channels=1, init=[65000, 9, 9, 0, 0], steps=[_ds(1, 1700000000.25), _ds(3, 1700000001.25, fail=True, pause=False)]),
+    dict(channels=4, init=[0, -1, 0, 1, 0], steps=[_ds(125, 1700000000.0), _ds(125, 1700000001.0), _ds(40, 4294967295.75)]),
+]
+
+
+def tpp_directed(rng):
+    for w in TPP_DIRECTED:
+        run = TpPacketRun(rng, script=w)
+        for st in w['steps']:
+            run.step(dict(st))
+        yield run
+
+
 def tpp_corr(ctx):
     rng = ctx.rng
     cases = []
     n = ctx.n(28, 400)
-    for _ in range(n):
-        run = TpPacketRun(rng).run(rng.randrange(2, 6))
+    runs = list(tpp_directed(rng)) + [TpPacketRun(rng).run(rng.randrange(2, 6)) for _ in range(n)]
+    for run in runs:
         cases.append(run.case_term())
         for r in run.steps:
             ctx.count('totalpower:packet:' + ('raised-%s' % r['raised'] if r['raised'] is not None
@@ -1829,6 +1855,15 @@ def tpp_run_script(rng, w):
 def tpp_oracle(ctx):
     rng = ctx.rng
     n = ctx.n(60, 1500)
+    for run in tpp_directed(rng):
+        for r in run.steps:
+            ctx.evaluations += 1
+            bad = tpp_check(r)
+            if bad:
+                w = tpp_witness(run)
+                w['steps'] = w['steps'][:run.steps.index(r) + 1]
+                ctx.fail('totalpower_packet_' + bad[0][0], bad[0][1], w)
+                break
     for _ in range(n):
         run = TpPacketRun(rng)
         prev = None
